@@ -263,4 +263,211 @@ theorem ins_covered (segs : List Seg) (start : Nat) (data : Bytes) (lg : Nat) (y
           · simp only [covered_cons, covered_nil, Seg.stop, List.length_take, hc, or_false, false_or] at *; omega
           · simp only [covered_nil, Seg.stop, hc, or_false, false_or] at *; omega
 
+/-! ### content (slices of `src`) -/
+
+/-- `data` is the slice of `src` at `off`. -/
+def IsSlice (src : Bytes) (off : Nat) (data : Bytes) : Prop := data = (src.drop off).take data.length
+
+theorem isSlice_nil (src : Bytes) (off : Nat) : IsSlice src off [] := by simp [IsSlice]
+
+theorem IsSlice.take {src : Bytes} {off : Nat} {data : Bytes} (h : IsSlice src off data) (k : Nat) :
+    IsSlice src off (data.take k) := by
+  unfold IsSlice at *
+  conv => lhs; rw [h]
+  simp [List.take_take]
+
+theorem IsSlice.drop {src : Bytes} {off : Nat} {data : Bytes} (h : IsSlice src off data) (k : Nat) :
+    IsSlice src (off + k) (data.drop k) := by
+  unfold IsSlice at *
+  conv => lhs; rw [h]
+  simp [List.drop_take, List.drop_drop]
+
+theorem IsSlice.stop_le {src : Bytes} {off : Nat} {data : Bytes} (h : IsSlice src off data) (hd : data ≠ []) :
+    off + data.length ≤ src.length := by
+  unfold IsSlice at h
+  have h2 := congrArg List.length h
+  have := List.length_pos_iff.mpr hd
+  simp only [List.length_take, List.length_drop] at h2
+  omega
+
+theorem ins_content {src : Bytes} {segs : List Seg} {start : Nat} {data : Bytes} {lg : Nat}
+    (hc : Content src segs) (hd : IsSlice src start data) : Content src (ins segs start data lg).1 := by
+  induction segs generalizing start data lg with
+  | nil =>
+    by_cases hd0 : data = []
+    · subst hd0; simpa [ins_empty] using hc
+    · simp only [ins_nil hd0]
+      intro seg hm; simp at hm; subst hm; exact hd
+  | cons seg rest ih =>
+    by_cases hd0 : data = []
+    · subst hd0; simpa [ins_empty] using hc
+    have hseg := hc seg (by simp)
+    have hrest : Content src rest := fun s hm => hc s (by simp [hm])
+    by_cases h1 : start + data.length ≤ seg.off
+    · rw [ins_before hd0 h1]
+      intro s hm
+      rcases List.mem_cons.mp hm with rfl | hm
+      · exact hd
+      · exact hc s hm
+    · by_cases h2 : seg.stop ≤ start
+      · rw [ins_after hd0 h1 h2]
+        intro s hm
+        rcases List.mem_cons.mp hm with rfl | hm
+        · exact hseg
+        · exact ih hrest hd s hm
+      · rw [ins_overlap hd0 h1 h2]
+        have hmax : max start seg.stop = start + (seg.stop - start) := by omega
+        have hr : ∀ lg', Content src (ins rest (max start seg.stop) (data.drop (seg.stop - start)) lg').1 := by
+          intro lg'; rw [hmax]; exact ih hrest (hd.drop _)
+        intro s hm
+        simp only [List.mem_append, List.mem_cons] at hm
+        rcases hm with hm | rfl | hm
+        · split at hm
+          · simp at hm; subst hm; exact hd.take _
+          · simp at hm
+        · exact hseg
+        · exact hr _ s hm
+
+/-! ### `contEnd` / `available` -/
+
+theorem contEnd_ge (segs : List Seg) (o : Nat) : o ≤ contEnd segs o := by
+  induction segs generalizing o with
+  | nil => simp [contEnd]
+  | cons seg rest ih =>
+    simp only [contEnd]; split
+    · have := ih (o + seg.data.length); omega
+    · omega
+
+/-- `contEnd` is exactly the end of the contiguous covered run that starts at `lo`. -/
+theorem contEnd_spec {lo hi : Nat} {segs : List Seg} (hw : Wf lo hi segs) (x : Nat) :
+    x < contEnd segs lo ↔ ∀ y, y ≤ x → (y < lo ∨ covered segs y) := by
+  induction segs generalizing lo with
+  | nil =>
+    simp only [contEnd, covered_nil, or_false]
+    constructor
+    · intro h y hy; omega
+    · intro h; exact h x (Nat.le_refl _)
+  | cons seg rest ih =>
+    obtain ⟨a, b, c, d⟩ := hw
+    simp only [contEnd]
+    split
+    · rename_i heq
+      have : lo + seg.data.length = seg.stop := by unfold Seg.stop; omega
+      rw [this, ih d]
+      constructor
+      · intro h y hy
+        rcases h y hy with h | h
+        · by_cases hlt : y < lo
+          · exact Or.inl hlt
+          · exact Or.inr ((covered_cons _ _ _).mpr (Or.inl ⟨by omega, h⟩))
+        · exact Or.inr ((covered_cons _ _ _).mpr (Or.inr h))
+      · intro h y hy
+        rcases h y hy with h | h
+        · exact Or.inl (by omega)
+        · rcases (covered_cons _ _ _).mp h with h | h
+          · exact Or.inl h.2
+          · exact Or.inr h
+    · rename_i hne
+      constructor
+      · intro h y hy; exact Or.inl (by omega)
+      · intro h
+        by_cases hlt : x < lo
+        · exact hlt
+        · exfalso
+          rcases h lo (by omega) with h | h
+          · omega
+          · have hw' : Wf seg.off hi (seg :: rest) := ⟨Nat.le_refl _, b, c, d⟩
+            have := hw'.covered_ge h
+            omega
+
+/-! ### `readGo` (`try_read`) -/
+
+theorem readGo_stop {seg : Seg} {rest : List Seg} {nread cap : Nat} (h : seg.off ≠ nread ∨ cap = 0) :
+    readGo (seg :: rest) nread cap = (seg :: rest, nread, []) := by
+  simp [readGo, h]
+
+theorem readGo_partial {seg : Seg} {rest : List Seg} {nread cap : Nat} (h1 : seg.off = nread) (h2 : cap ≠ 0)
+    (h3 : cap < seg.data.length) :
+    readGo (seg :: rest) nread cap = (⟨seg.off + cap, seg.data.drop cap⟩ :: rest, nread + cap, seg.data.take cap) := by
+  have : min cap seg.data.length = cap := by omega
+  simp [readGo, h1, h2, this, h3]
+
+theorem readGo_full {seg : Seg} {rest : List Seg} {nread cap : Nat} (h1 : seg.off = nread) (h2 : cap ≠ 0)
+    (h3 : seg.data.length ≤ cap) :
+    readGo (seg :: rest) nread cap =
+      ((readGo rest (nread + seg.data.length) (cap - seg.data.length)).1,
+       (readGo rest (nread + seg.data.length) (cap - seg.data.length)).2.1,
+       seg.data ++ (readGo rest (nread + seg.data.length) (cap - seg.data.length)).2.2) := by
+  have : min cap seg.data.length = seg.data.length := by omega
+  simp [readGo, h1, h2, this]
+
+/-- Everything `try_read` does, in one statement (one induction over the segment list). -/
+theorem readGo_spec {src : Bytes} {hi : Nat} {segs : List Seg} {nread cap : Nat}
+    (hw : Wf nread hi segs) (hc : Content src segs) :
+    (readGo segs nread cap).2.1 = nread + (readGo segs nread cap).2.2.length ∧
+    (readGo segs nread cap).2.2.length = min cap (contEnd segs nread - nread) ∧
+    Wf (readGo segs nread cap).2.1 hi (readGo segs nread cap).1 ∧
+    Content src (readGo segs nread cap).1 ∧
+    IsSlice src nread (readGo segs nread cap).2.2 ∧
+    (∀ y, (y < (readGo segs nread cap).2.1 ∨ covered (readGo segs nread cap).1 y) ↔ (y < nread ∨ covered segs y)) := by
+  induction segs generalizing nread cap with
+  | nil => simp [readGo, contEnd, Wf, isSlice_nil]; exact hc
+  | cons seg rest ih =>
+    obtain ⟨a, b, c, d⟩ := hw
+    have hseg : IsSlice src seg.off seg.data := hc seg (by simp)
+    have hrest : Content src rest := fun s hm => hc s (by simp [hm])
+    have hlen := List.length_pos_iff.mpr b
+    by_cases h : seg.off ≠ nread ∨ cap = 0
+    · rw [readGo_stop h]
+      refine ⟨by simp, ?_, ⟨a, b, c, d⟩, hc, isSlice_nil _ _, fun y => Iff.rfl⟩
+      simp only [contEnd, List.length_nil]
+      rcases h with h | h
+      · simp [h]
+      · omega
+    · have h1 : seg.off = nread := by omega
+      have h2 : cap ≠ 0 := by omega
+      have hce : contEnd (seg :: rest) nread = contEnd rest (nread + seg.data.length) := by simp [contEnd, h1]
+      have hge := contEnd_ge rest (nread + seg.data.length)
+      by_cases h3 : cap < seg.data.length
+      · rw [readGo_partial h1 h2 h3]
+        refine ⟨by simp; omega, by simp [hce]; omega, ?_, ?_, ?_, ?_⟩
+        · refine ⟨by simp; omega, ?_, ?_, ?_⟩
+          · apply List.length_pos_iff.mp; simp; omega
+          · simp [Seg.stop] at *; omega
+          · have : (⟨seg.off + cap, seg.data.drop cap⟩ : Seg).stop = seg.stop := by simp [Seg.stop]; omega
+            rw [this]; exact d
+        · intro s hm
+          rcases List.mem_cons.mp hm with rfl | hm
+          · exact hseg.drop cap
+          · exact hrest s hm
+        · rw [← h1]; exact hseg.take cap
+        · intro y
+          by_cases hcv : covered rest y <;> simp [hcv, Seg.stop] <;> omega
+      · have h3' : seg.data.length ≤ cap := by omega
+        rw [readGo_full h1 h2 h3']
+        have hd : Wf (nread + seg.data.length) hi rest := by
+          have : nread + seg.data.length = seg.stop := by simp [Seg.stop]; omega
+          rw [this]; exact d
+        obtain ⟨i1, i2, i3, i4, i5, i6⟩ := ih (nread := nread + seg.data.length) (cap := cap - seg.data.length) hd hrest
+        refine ⟨by simp only [i1, List.length_append]; omega, by simp only [List.length_append, i2, hce]; omega, i3, i4, ?_, ?_⟩
+        · unfold IsSlice at *
+          rw [List.length_append, List.take_add, List.drop_drop, ← i5, ← h1, ← hseg]
+        · intro y
+          rw [i6 y]
+          by_cases hcv : covered rest y <;> simp [hcv, Seg.stop] <;> omega
+
+/-! ### `tryNext` -/
+
+theorem tryNext_none {s : State} (h : (tryNext s).2 = none) : (tryNext s).1 = s := by
+  unfold tryNext at *; split <;> (try split) <;> simp_all
+
+theorem tryNext_some_iff (s : State) : (tryNext s).2.isSome ↔ ∃ seg rest, s.segs = seg :: rest ∧ seg.off = s.nread := by
+  unfold tryNext; split
+  · simp_all
+  · split <;> simp_all
+
+theorem tryNext_eq_of_ready {s : State} {seg : Seg} {rest : List Seg} (hs : s.segs = seg :: rest) (h : seg.off = s.nread) :
+    tryNext s = ({ s with segs := rest, nread := s.nread + seg.data.length }, some seg.data) := by
+  unfold tryNext; simp [hs, h]
+
 end GmQuic.RecvBuf
